@@ -8,6 +8,7 @@ import (
 	"context"
 	"encoding/json"
 	"fmt"
+	"io"
 	"net/http"
 	"strings"
 	"sync"
@@ -197,19 +198,36 @@ func (s *pipeState) rawOp(op, ver string, data []byte) outcome {
 	case "ParseAuthorization":
 		return s.dov(op, func() { fclient.ParseAuthorization(string(data)) })
 	case "VerifyHTTPRequest":
-		return s.do(op, func() error {
-			req, err := http.NewRequest("PUT", "matrix://hs9/_matrix/federation/v1/send/1", strings.NewReader(`{"pdus":[]}`))
+		// data = the Authorization headers of the request, one per line ("<none>" = no such header)
+		var headers []string
+		if string(data) != "<none>" {
+			headers = strings.Split(string(data), "\n")
+		}
+		verify := func(method, body string) error {
+			var rd io.Reader
+			if body != "" {
+				rd = strings.NewReader(body)
+			}
+			req, err := http.NewRequest(method, "matrix://hs9/_matrix/federation/v1/send/1", rd)
 			if err != nil {
 				return err
 			}
-			req.Header.Set("Content-Type", "application/json")
-			req.Header["Authorization"] = []string{string(data)}
+			if body != "" {
+				req.Header.Set("Content-Type", "application/json")
+			} else {
+				req.Body = http.NoBody // a request received by a server always has a body (net/http)
+			}
+			if headers != nil {
+				req.Header["Authorization"] = headers
+			}
 			_, resp := fclient.VerifyHTTPRequest(req, time.Now(), "hs9", nil, staticKeyRing())
 			if resp.Code != 200 {
 				return fmt.Errorf("status %d", resp.Code)
 			}
 			return nil
-		})
+		}
+		s.do(op, func() error { return verify("GET", "") })
+		return s.do(op, func() error { return verify("PUT", `{"pdus":[]}`) })
 	case "HTTPRequest":
 		return s.do(op, func() error {
 			req, err := http.ReadRequest(bufio.NewReader(bytes.NewReader(data)))
